@@ -66,4 +66,8 @@ PROP_ASSUMPTIONS = {
         "Model/LineColumn.lean hand-written from SourceFile::get_line_column; bytes modelled as characters with utf8Size prefix sums",
         "ast/from_cst.rs location attachment is not modelled; checked on the implementation",
     ],
+    "C16": [
+        "Model/BuiltinScalars.lean hand-written from schema/validation.rs; IndexMap = association list, HashSet iteration = arbitrary permutation",
+        "type references are exported by the harness from fields, arguments, input fields and directive definition arguments (what record_type_ref sees)",
+    ],
 }
